@@ -777,6 +777,7 @@ fn main() {
     let mut dummy = Prng::new(0);
     if let Some(f) = a.get("cases") {
         for (n, line) in std::fs::read_to_string(f).unwrap().lines().enumerate() {
+            fbrh::util::crumb(line);
             if line.trim().is_empty() {
                 continue;
             }
